@@ -82,10 +82,14 @@ static int set_mtime (const char *path, long t)
   return utimensat (AT_FDCWD, path, ts, 0);
 }
 
+static int no_binaries = 0;	/* reference compile (reloadf): binaries are neither read nor written */
+
 program_t *load_binary (const char *name)
 {
   program_t *p;
   inherit_file = 0;
+  if (no_binaries)
+    return 0;
   p = c17_real_load_binary (name);
   if (p)
     vh_out ("lb %s use", name);
@@ -112,7 +116,8 @@ void save_binary (program_t * prog, mem_block_t * includes, mem_block_t * patche
 {
   char path[512], incs[2048];
   struct stat st;
-  c17_real_save_binary (prog, includes, patches);
+  if (!no_binaries)
+    c17_real_save_binary (prog, includes, patches);
   bin_path (path, sizeof path, prog->name);
   {
     /* the patch list of the program just compiled (also when the master refuses the save or save_binary() declines) */
@@ -129,6 +134,8 @@ void save_binary (program_t * prog, mem_block_t * includes, mem_block_t * patche
           P[s].patch[i] = ((unsigned short *) patches->block)[i];
       }
   }
+  if (no_binaries)
+    return;
   if (stat (path, &st) == 0 && st.st_mtime > REAL_T)
     {
       int s = pslot (prog->name, 1);
@@ -837,9 +844,12 @@ static int sys_cmd (char *line)
         calls[ncalls++] = strdup (tok[i]);
       return 1;
     }
-  if ((!strcmp (tok[0], "reload") || !strcmp (tok[0], "reloadp")) && n >= 2)
+  if ((!strcmp (tok[0], "reload") || !strcmp (tok[0], "reloadp") || !strcmp (tok[0], "reloadf")) && n >= 2)
     {
-      int fresh_process = tok[0][6] == 'p';
+      /* reloadf: the reference - what the CURRENT sources compile to: the same reload in a process of its own with
+         binaries neither read nor written; nothing of it comes back but its output */
+      int reference = tok[0][6] == 'f';
+      int fresh_process = tok[0][6] == 'p' || reference;
       int report_fd = -1;
       /* reload <top> <family>...: destruct the whole family, load <top>, dump every loaded family member, run calls */
       object_t *top;
@@ -883,6 +893,7 @@ static int sys_cmd (char *line)
             }
           close (pfd[0]);
           report_fd = pfd[1];
+          no_binaries = reference;
         }
       vh_out ("begin %d", reload_no);
       /* the programs named after a `|` stay loaded as they are (they are only dumped) */
